@@ -2328,7 +2328,25 @@ func extra3C08(c *Ctx) {
 		g := c.G(f)
 		for _, h := range g.FindCalls(blobPkg + ".DiskCache.manifestPath") {
 			call := h.Node.(*ast.CallExpr)
-			if len(call.Args) == 1 && isIdentOf(info, call.Args[0], paramAt(f, 0)) {
+			fromParam := len(call.Args) == 1 && isIdentOf(info, call.Args[0], paramAt(f, 0))
+			if !fromParam && len(call.Args) == 1 {
+				// the name part of the parameter kept in a local of its own: base, digest := splitNameDigest(name)
+				if id, isId := ast.Unparen(call.Args[0]).(*ast.Ident); isId {
+					ast.Inspect(f.Body, func(nd ast.Node) bool {
+						as, isAs := nd.(*ast.AssignStmt)
+						if !isAs || len(as.Rhs) != 1 || len(as.Lhs) < 1 {
+							return true
+						}
+						l0, isL := as.Lhs[0].(*ast.Ident)
+						sc, isC := ast.Unparen(as.Rhs[0]).(*ast.CallExpr)
+						if isL && isC && info.ObjectOf(l0) == info.Uses[id] && core.CalleeName(info, sc) == blobPkg+".splitNameDigest" && len(sc.Args) == 1 && isIdentOf(info, sc.Args[0], paramAt(f, 0)) {
+							fromParam = true
+						}
+						return true
+					})
+				}
+			}
+			if fromParam {
 				ok = true
 				pathVar = core.ResultVar(info, h.Top, call, 0)
 			}
